@@ -864,11 +864,46 @@ func (s *c11StreamScope) ReserveMemory(size int, prio uint8) error {
 type c11ACL struct {
 	denyReserve map[peer.ID]bool
 	denyConnect map[[2]peer.ID]bool
+	// park: when armed, the next AllowConnect call waits on this channel before it answers (an ACL is an external
+	// lookup: the world may change while it runs); parked reports that a call is waiting / has waited
+	mu     sync.Mutex
+	park   chan struct{}
+	parked bool
 }
 
 func (a *c11ACL) AllowReserve(p peer.ID, _ ma.Multiaddr) bool { return !a.denyReserve[p] }
 func (a *c11ACL) AllowConnect(src peer.ID, _ ma.Multiaddr, dest peer.ID) bool {
+	a.mu.Lock()
+	ch := a.park
+	if ch != nil {
+		a.park, a.parked = nil, true
+	}
+	a.mu.Unlock()
+	if ch != nil {
+		<-ch
+	}
 	return !a.denyConnect[[2]peer.ID{src, dest}]
+}
+
+// arm makes the next AllowConnect call wait until the returned function is called; wasParked (after quiescence) tells
+// whether a call is waiting.
+func (a *c11ACL) arm() (release func()) {
+	ch := make(chan struct{})
+	a.mu.Lock()
+	a.park, a.parked = ch, false
+	a.mu.Unlock()
+	return func() {
+		a.mu.Lock()
+		a.park = nil
+		a.mu.Unlock()
+		close(ch)
+	}
+}
+
+func (a *c11ACL) wasParked() bool {
+	a.mu.Lock()
+	defer a.mu.Unlock()
+	return a.parked
 }
 
 // ---------- configuration of one closed system ----------
@@ -933,6 +968,7 @@ type c11Sys struct {
 	net    *c11Net
 	host   *c11Host
 	relay  *Relay
+	acl    *c11ACL // nil without ACL
 	ids    []*c11Ident
 	addrs  [][]ma.Multiaddr
 	conns  [][]*c11Conn // [client][addr]: the open connection from that address, or nil
@@ -993,6 +1029,7 @@ func c11NewSys(cfg *c11Cfg) *c11Sys {
 		for _, pr := range cfg.DenyConnect {
 			acl.denyConnect[[2]peer.ID{sy.ids[pr[0]].id, sy.ids[pr[1]].id}] = true
 		}
+		sy.acl = acl
 		opts = append(opts, WithACL(acl))
 	}
 	sy.relay, err = New(sy.host, opts...)
